@@ -198,10 +198,13 @@ pub fn run_part<S: System>(ctx: &Ctx, rep: &mut Report, part: &Part<S>) -> Vec<(
         if let Ok(n) = std::env::var("AVTMC_MAXV") {
             b.max_violations = n.parse().unwrap_or(5);
         }
-        // every configuration gets an equal share of what is left of the part's budget
+        // every configuration gets a bounded share of what is left of the part's budget
         let now = Instant::now();
         let left = deadline.saturating_duration_since(now);
-        let share = left / (part.cfgs.len() - ci) as u32;
+        // (up to three equal shares, so that one large configuration is not cut short
+        // while small ones leave their time unused)
+        let n_left = (part.cfgs.len() - ci) as f64;
+        let share = left.mul_f64((3.0 / n_left).min(1.0));
         b.caps = Caps {
             deadline: Some(now + share),
             max_states: 60_000_000,
